@@ -42,6 +42,23 @@ AUTO_PATH_SPECS = [
 ]
 
 
+def _underscore_assign_edits(sf, lo, hi):
+    """E14: `_ = EXPR;` (destructuring assignment to the wildcard, which this Verus rejects) -> `let _ = EXPR;` (same meaning:
+    EXPR is evaluated and its value dropped at once). Only at the start of a statement."""
+    out = []
+    txt = sf.b[lo:hi]
+    for m in re.finditer(rb"(?<=[;{}\n])([ \t]*)_[ \t]*=(?!=)", txt):
+        # statement start: everything between the previous ';' '{' '}' and the `_` is white space
+        a = lo + m.start(1) + len(m.group(1))
+        # statement start: between the previous `;` `{` `}` and the `_` there is only white space and // comments
+        k = max(sf.b.rfind(b";", lo, a), sf.b.rfind(b"{", lo, a), sf.b.rfind(b"}", lo, a))
+        between = sf.b[(k + 1 if k >= 0 else lo):a].decode("utf-8", "replace")
+        between = re.sub(r"//[^\n]*", "", between)
+        if between.strip() == "":
+            out.append((a, a, "let ", "rule", "E14"))
+    return out
+
+
 def _residual_closures(it, lo, hi, edits):
     """number of closure expressions of item `it` inside [lo,hi) that no replacing edit covers (they stay verbatim in the unit)"""
     n = 0
@@ -704,6 +721,11 @@ class Unit:
                 edits.append((lo, hi, " unimplemented!() ", "rule", "stub"))
             else:
                 edits += self._cfg_stmt_edits(sf, it)
+                e14 = _underscore_assign_edits(sf, lo, hi)
+                if e14:
+                    edits += e14
+                    applied.append("E14")
+                    self.rule("E14", "%s: %d statement(s) `_ = e;` written `let _ = e;`" % (path, len(e14)))
                 ins = e10_lets + (("\n" + pre_body.rstrip() + "\n") if pre_body.strip() else "")
                 if ins:
                     edits.append((lo, lo, ins, "contract" if not e10_lets else "rule", "E7"))
@@ -1036,6 +1058,10 @@ class Unit:
         for e in self._cfg_stmt_edits(sf, it):
             if lo <= e[0] and e[1] <= hi:
                 edits.append(e)
+        e14 = _underscore_assign_edits(sf, lo, hi)
+        if e14:
+            edits += e14
+            self.rule("E14", "%s[%s]: %d statement(s) `_ = e;` written `let _ = e;`" % (path, name, len(e14)))
         ctext = ("\n" + contract.rstrip() + "\n") if contract.strip() else ""
         if self.twin:
             pre_body = pre_body.rstrip() + "\nproof { assert(false); } // @TWIN\n"
